@@ -10,6 +10,12 @@ mod sortchk;
 mod nanchk;
 mod binschk;
 mod stratchk;
+mod quantchk;
+mod lay;
+mod minmaxchk;
+mod numchk;
+mod histchk;
+mod errchk;
 
 fn main() {
     let args: Vec<String> = std::env::args().collect();
@@ -29,6 +35,13 @@ fn main() {
         "oob" => sortchk::oob(&mut cfg, &mut rep),
         "bins" => binschk::bins(&mut cfg, &mut rep),
         "strategies" => stratchk::strategies(&mut cfg, &mut rep),
+        "quantiles" => quantchk::quantiles(&mut cfg, &mut rep),
+        "minmax" => minmaxchk::minmax(&mut cfg, &mut rep),
+        "skipnan" => minmaxchk::skipnan(&mut cfg, &mut rep),
+        "deviation" => numchk::deviation(&mut cfg, &mut rep),
+        "means" => numchk::means(&mut cfg, &mut rep),
+        "histogram" => histchk::histogram(&mut cfg, &mut rep),
+        "errors" => errchk::errors(&mut cfg, &mut rep),
         "nanview" => nanchk::nanview(&mut cfg, &mut rep),
         _ => {
             eprintln!("unknown enumeration {}", name);
